@@ -10,14 +10,4 @@ CONSTANTS
  DevOtherTemplate = FALSE
  DevCentreOther = TRUE
 INVARIANT Centred
-INVARIANT TurnedScaled
-INVARIANT Scaled
-INVARIANT SameHanded
-INVARIANT Congruent
-INVARIANT VSKept
-INVARIANT Untouched
-INVARIANT Protocol
-INVARIANT RotationLawsOnce
-INVARIANT TemplatesOKOnce
-PROPERTY OwnOnly
 CHECK_DEADLOCK FALSE
